@@ -90,6 +90,10 @@ EXPLANATION += (
     ' Kernel inputs are (data - row mean) / sqrt(sum((data - row mean)^2)), compared as polynomials (R-ARITH/pearson).'
 )
 
+EXPLANATION += (
+    ' Round 10: aggregate_votes reads the vote table at positions that do not derive from the correlation table (R-PROV/votes-where-cast).'
+)
+
 RULE_TEXT = (
     "one obligation per draw, per block, per indexed comprehension, per "
     "provenance relation, per kernel function x configuration (type and "
